@@ -17,6 +17,10 @@ type PSlide struct {
 	RelPos   int    // position in presentation.xml.rels
 	ZipPos   int
 	Absent   bool // listed and related as usual, but the part itself is not put into the archive
+	// Notes: text of the slide's notes slide ("" = the slide has none). The notes slide part is
+	// ppt/notesSlides/notesSlide<NotesNo>.xml, related from the slide part.
+	Notes   string
+	NotesNo int
 }
 
 // Deck is a whole PPTX package.
@@ -63,6 +67,39 @@ func SlideXML(s PSlide) string {
 		`</p:spTree></p:cSld><p:clrMapOvr><a:masterClrMapping/></p:clrMapOvr></p:sld>`
 }
 
+func (d *Deck) hasNotes() bool {
+	for _, s := range d.Slides {
+		if s.Notes != "" && !s.Absent {
+			return true
+		}
+	}
+	return false
+}
+
+func notesMasterLst(d *Deck, sp Spelling) string {
+	if !d.hasNotes() {
+		return ""
+	}
+	return `<p:notesMasterIdLst><p:notesMasterId ` + sp.rp() + `:id="rIdN"/></p:notesMasterIdLst>`
+}
+
+const (
+	ctNotes       = "application/vnd.openxmlformats-officedocument.presentationml.notesSlide+xml"
+	ctNotesMaster = "application/vnd.openxmlformats-officedocument.presentationml.notesMaster+xml"
+)
+
+// upTo returns the relative path from the directory of part to target (both ZIP member names).
+func upTo(part, target string) string {
+	n := strings.Count(part, "/")
+	pre := strings.Split(part, "/")
+	tg := strings.Split(target, "/")
+	k := 0
+	for k < n && k < len(tg)-1 && pre[k] == tg[k] {
+		k++
+	}
+	return strings.Repeat("../", n-k) + strings.Join(tg[k:], "/")
+}
+
 // Members renders the package.
 func (d *Deck) Members() []Member {
 	decl := sortedBy(d.Slides, func(s PSlide) int { return s.DeclPos })
@@ -70,7 +107,7 @@ func (d *Deck) Members() []Member {
 	var pr strings.Builder
 	sp := d.Sp
 	pr.WriteString(`<p:presentation xmlns:a="` + nsA + `" xmlns:` + sp.rp() + `="` + nsRel + `" xmlns:p="` + nsP + `"` + sp.mcAttrs() +
-		`><p:sldMasterIdLst><p:sldMasterId id="2147483648" ` + sp.rp() + `:id="rIdM"/></p:sldMasterIdLst><p:sldIdLst>`)
+		`><p:sldMasterIdLst><p:sldMasterId id="2147483648" ` + sp.rp() + `:id="rIdM"/></p:sldMasterIdLst>` + notesMasterLst(d, sp) + `<p:sldIdLst>`)
 	for i, s := range decl {
 		as := []attr{{"id", fmt.Sprint(s.SldID)}, {sp.rp() + ":id", s.RID}}
 		if sp.Foreign {
@@ -91,7 +128,14 @@ func (d *Deck) Members() []Member {
 	for _, s := range d.Slides {
 		if !s.Absent {
 			ov = append(ov, Override{s.PartName, ctSlide})
+			if s.Notes != "" {
+				ov = append(ov, Override{fmt.Sprintf("ppt/notesSlides/notesSlide%d.xml", s.NotesNo), ctNotes})
+			}
 		}
+	}
+	if d.hasNotes() {
+		rels = append(rels, Rel{"rIdN", relBase + "notesMaster", "notesMasters/notesMaster1.xml"})
+		ov = append(ov, Override{"ppt/notesMasters/notesMaster1.xml", ctNotesMaster})
 	}
 	root := []Rel{{"rId1", relOfficeDoc, "ppt/presentation.xml"}}
 	master := xmlDecl + `<p:sldMaster` + pNS + `><p:cSld><p:spTree>` + emptyTree + `</p:spTree></p:cSld>` + clrMap +
@@ -145,6 +189,11 @@ func (d *Deck) Members() []Member {
 		mem("ppt/theme/theme1.xml", themeXML),
 	}
 	infra = append(infra, tail...)
+	if d.hasNotes() {
+		nm := xmlDecl + `<p:notesMaster` + pNS + `><p:cSld><p:spTree>` + emptyTree + `</p:spTree></p:cSld>` + clrMap + `</p:notesMaster>`
+		infra = append(infra, mem("ppt/notesMasters/notesMaster1.xml", nm),
+			mem("ppt/notesMasters/_rels/notesMaster1.xml.rels", relsXML([]Rel{{"rId1", relBase + "theme", "../theme/theme1.xml"}})))
+	}
 	var parts []Member
 	zs := append([]PSlide{}, d.Slides...)
 	sort.SliceStable(zs, func(i, j int) bool { return zs[i].ZipPos < zs[j].ZipPos })
@@ -155,7 +204,16 @@ func (d *Deck) Members() []Member {
 		parts = append(parts, mem(s.PartName, SlideXML(s)))
 		// every slide part relates to its layout (19.3.1.38); an absolute target is
 		// independent of where the slide part lives
-		parts = append(parts, mem(relsPathFor(s.PartName), relsXML([]Rel{{"rId1", relBase + "slideLayout", "/ppt/slideLayouts/slideLayout1.xml"}})))
+		srels := []Rel{{"rId1", relBase + "slideLayout", "/ppt/slideLayouts/slideLayout1.xml"}}
+		if s.Notes != "" {
+			np := fmt.Sprintf("ppt/notesSlides/notesSlide%d.xml", s.NotesNo)
+			srels = append(srels, Rel{"rId2", relBase + "notesSlide", upTo(s.PartName, np)})
+			notes := xmlDecl + `<p:notes` + pNS + `><p:cSld><p:spTree>` + emptyTree + shapeXML(2, "Notes Placeholder 1", "body", s.Notes) +
+				`</p:spTree></p:cSld><p:clrMapOvr><a:masterClrMapping/></p:clrMapOvr></p:notes>`
+			parts = append(parts, mem(np, notes), mem(relsPathFor(np), relsXML([]Rel{
+				{"rId1", relBase + "notesMaster", "../notesMasters/notesMaster1.xml"}, {"rId2", relBase + "slide", upTo(np, s.PartName)}})))
+		}
+		parts = append(parts, mem(relsPathFor(s.PartName), relsXML(srels)))
 	}
 	return strictify(order(infra, parts, d.InfraFirst), d.Strict)
 }
